@@ -62,7 +62,40 @@ class C02(SessionCheck):
             except Exception:  # pylint: disable=broad-except
                 pass
             replays.append(session.enc_dstate(d0))
+            # the library's own replay of a recorded history (GIF / video creation re-dispatches it on a
+            # fresh dispatcher and hands the growing schedule to the plot function); recorded BEFORE the reset
+            if hist:     # (an empty history is rejected by create_gantt_chart_frames: nothing to replay)
+                replays.append(self.replay_through_frames(inst, hist))
         return {"outs": outs, "hist": hist, "replays": common.norm(replays), "final": common.norm(final_rows)}
+
+    @staticmethod
+    def replay_through_frames(inst, hist):
+        import os
+        import shutil
+        import tempfile
+
+        from matplotlib.figure import Figure
+        from job_shop_lib import ScheduledOperation
+        from job_shop_lib.visualization import create_gantt_chart_frames
+
+        seen = []
+
+        def plot(schedule, makespan=None, available_operations=None, current_time=None):
+            seen.append([[[s.operation.job_id, s.operation.position_in_job, s.start_time, s.machine_id]
+                          for s in row] for row in schedule.schedule])
+            fig = Figure()
+            fig.savefig = lambda path, **kw: None
+            return fig
+
+        if not hist:
+            return [[], [], [], []]
+        tmp = tempfile.mkdtemp(prefix="c02-", dir=os.path.join(common.VERIF, ".scratch"))
+        try:
+            history = [ScheduledOperation(inst.jobs[j][p], st, m) for j, p, st, m in hist]
+            create_gantt_chart_frames(tmp, inst, None, plot, False, history)
+        finally:
+            shutil.rmtree(tmp, ignore_errors=True)
+        return [[], [], [], seen[-1] if len(seen) == len(hist) else [["frames", len(seen)]]]
 
     def hist_valid(self, case, outs, idx):
         """history observer idx subscribed before the first dispatch / since the last reset, never unsubscribed"""
@@ -144,7 +177,8 @@ class C02(SessionCheck):
                                          f"forced start is {want}", expected=want, observed=new[2]))
         # replay
         if obs["hist"] is not None:
-            for which, rep in zip(("fresh", "reset", "same (reset, recorded list object)"), obs["replays"]):
+            for which, rep in zip(("fresh", "reset", "same (reset, recorded list object)",
+                                   "fresh (inside create_gantt_chart_frames)"), obs["replays"]):
                 if rep[3] != obs["final"]:
                     fails.append(Failure("oracle", "replay-" + which,
                                          f"re-dispatching the recorded history on a {which} dispatcher does not "
